@@ -5,8 +5,8 @@
    that the real constructor configures it with (parallelrecoverymaxrate, 100) is third-party / runtime behaviour:
    the harness reads the parameters of a consumer built by the real constructor and measures the wall-clock lower
    bound (Judge/E4.v spec_c19_timing). *)
-From Coq Require Import List ZArith Bool.
-From FB Require Import Model.Tracker Model.Recovery Model.Bucket Judge.E4 Proofs.RecoveryProofs Proofs.BucketProofs.
+From Coq Require Import List ZArith Bool Lia.
+From FB Require Import Model.Tracker Model.Recovery Model.Bucket Judge.E4 Proofs.RecoveryProofs Proofs.BucketProofs Proofs.BucketSched.
 Import ListNotations.
 Open Scope Z_scope.
 
@@ -49,6 +49,39 @@ Theorem C19_bucket_bound : forall b t0 ts s d,
   b_den b * count_in s (s + d) ts <= b_den b * b_burst b + b_rate b * d.
 Proof. exact bucket_window_bound. Qed.
 
+(* the limiter as a scheduler (Model/Bucket.v [schedule]: one Wait before each emission, Wait returns at the earliest
+   tick with a whole token).  HOWEVER FAST records become available (any list [arr] of availability times, e.g. a
+   backlog of a million records all available at t0), in any window [s, s+d] at most burst + rate*d/den are emitted *)
+Theorem C19_rate_bound_however_fast : forall b t0 arr s d,
+  0 < b_rate b -> 0 < b_den b -> 1 <= b_burst b -> 0 <= d ->
+  b_den b * count_in s (s + d) (schedule b (cap b) t0 arr) <= b_den b * b_burst b + b_rate b * d.
+Proof. exact schedule_window_bound. Qed.
+
+(* the limit only delays: every record is emitted (as many emissions as records), none before it was available *)
+Theorem C19_limit_only_delays : forall b arr lvl t0,
+  0 < b_rate b -> 0 < b_den b ->
+  length (schedule b lvl t0 arr) = length arr
+  /\ Forall2 (fun a t => a <= t /\ t0 <= t) arr (schedule b lvl t0 arr).
+Proof. exact schedule_only_delays. Qed.
+
+(* Wait is exact: it returns at once when a token is there, and otherwise at the first tick that has one *)
+Theorem C19_wait_exact : forall b lvl t0 t,
+  0 < b_rate b -> 0 < b_den b -> 1 <= b_burst b -> lvl <= cap b -> t0 <= t ->
+  b_den b <= level_at b lvl t0 (wait_until b lvl t0 t)
+  /\ (forall u, t <= u < wait_until b lvl t0 t -> level_at b lvl t0 u < b_den b).
+Proof. exact wait_exact. Qed.
+
+(* the initial burst is not delayed: of a backlog available at the start the first [burst] records go out at once *)
+Theorem C19_initial_burst_now : forall b t0 n,
+  0 < b_rate b -> 0 < b_den b -> 0 <= b_burst b -> Z.of_nat n <= b_burst b ->
+  schedule b (cap b) t0 (repeat t0 n) = repeat t0 n.
+Proof. exact initial_burst_now. Qed.
+
+(* non-vacuity: rate 2/s (ticks are ms), burst 3, backlog of five records at 0 and one at 10 s *)
+Example C19_schedule_inhabited :
+  schedule {| b_rate := 2; b_den := 1000; b_burst := 3 |} 3000 0 [0; 0; 0; 0; 0; 10000] = [0; 0; 0; 500; 1000; 10000].
+Proof. vm_compute. reflexivity. Qed.
+
 (* the decision procedure used on the implementation's per-op observations accepts the model on every input *)
 Theorem C19_spec_sound : forall cfg ops,
   spec_c19_logic ops (map (fun so => mk_opobs (fst so) (snd so)) (rrun cfg init_state ops)) = [].
@@ -74,5 +107,10 @@ Print Assumptions C19_waits_equal_recovered.
 Print Assumptions C19_waits_bounds.
 Print Assumptions C19_bucket_bound.
 Print Assumptions C19_spec_sound.
+Print Assumptions C19_rate_bound_however_fast.
+Print Assumptions C19_limit_only_delays.
+Print Assumptions C19_wait_exact.
+Print Assumptions C19_initial_burst_now.
+Print Assumptions C19_schedule_inhabited.
 Print Assumptions C19_bucket_inhabited.
 Print Assumptions C19_run_inhabited.
